@@ -192,17 +192,22 @@ Definition server_auth (c : scfg) (q : rx) : authres :=
   if s_fetcher c && (3 <=? zlen (rx_layers q)) && (second_last_layer (rx_layers q) =? LT_E2E) then
     match find_opt OPT_AUTH (rx_opts q) with
     | Some o =>
-        if zlen (o_data o) =? auth_opt_data_len then
-          if (opt_spi o =? spi_client) && (opt_algo o =? auth_algorithm) then
+        (* SPI and algorithm are read from the first five bytes of the option data (opt_algo is -1
+           for a shorter option).  An authenticator of the time service whose data does not have
+           28 bytes cannot verify, and neither can one for which no key is to be had: the packet is
+           dropped (fix: the repairs of the length test and of the key-fetch error branch; before
+           them such a request was served like an unauthenticated one) *)
+        if (opt_spi o =? spi_client) && (opt_algo o =? auth_algorithm) then
+          if zlen (o_data o) =? auth_opt_data_len then
             let h := rx_hdr q in
             match fetch_key (mkKeyreq (h_dst_ia h) (h_src_ia h) (h_dst_raw h) (h_src_raw h)) with
-            | None => NoAuth
+            | None => AuthBad
             | Some k =>
                 (* spao cannot compute the MAC for an unregistered path type: the packet is
                    not verified (fix: commit 5a2eaf3; before it the listener panicked here) *)
                 if mac_computable h && bytes_eqb (opt_mac o) (mac k (macin_rx o q)) then AuthOk k o else AuthBad
             end
-          else NoAuth
+          else AuthBad
         else NoAuth
     | None => NoAuth
     end
@@ -285,7 +290,8 @@ Definition server_step (c : scfg) (q : rx) (oob : bytes) : action :=
 Record ccfg := mkCcfg {
   c_key : option bytes;   (* authKey: Some iff Auth.Enabled and the host-host key was fetched *)
   c_local_ia : Z; c_local_host : bytes;
-  c_remote_ia : Z; c_remote_host : bytes }.
+  c_remote_ia : Z; c_remote_host : bytes;
+  c_auth : bool }.        (* Auth.Enabled *)
 
 (* netip.Addr.Unmap *)
 Definition unmap (raw : bytes) : bytes :=
@@ -300,7 +306,17 @@ Definition same_ip (x y : bytes) : bool := host_ok x && host_ok y && bytes_eqb (
 Definition client_auth (c : ccfg) (q : rx) : authres :=
   if (3 <=? zlen (rx_layers q)) && (second_last_layer (rx_layers q) =? LT_E2E) then
     match c_key c with
-    | None => NoAuth
+    | None =>
+        (* authentication enabled but no key (the fetch failed): a response that carries the
+           server's authenticator cannot be verified and is skipped (fix: the repair of the
+           client's no-key path; before it the authenticator was not looked at) *)
+        if c_auth c then
+          match find_opt OPT_AUTH (rx_opts q) with
+          | Some o => if (zlen (o_data o) =? auth_opt_data_len) && (opt_spi o =? spi_server) && (opt_algo o =? auth_algorithm)
+                      then AuthBad else NoAuth
+          | None => NoAuth
+          end
+        else NoAuth
     | Some k =>
         match find_opt OPT_AUTH (rx_opts q) with
         | Some o =>
